@@ -78,11 +78,41 @@ def problems():
                 except Exception as e:  # noqa
                     out.append(f"asynchronous method raised {e!r} (caller context not carried?)")
                 try:
+                    r = await Svc.m(s, 1, key="q")          # the same method reached through the class
+                    if r[:4] != ("t", 1, "q", 7):
+                        out.append(f"asynchronous method called through the class: {r}")
+                except Exception as e:  # noqa
+                    out.append(f"asynchronous method called through the class (Svc.m(obj, 1, key='q')) raised {e!r}")
+                try:
                     await s.m("raise")
                     out.append("asynchronous method: exception swallowed")
                 except Boom as e:
                     if e is not boom:
                         out.append("asynchronous method: different exception object")
+        # results of arbitrary type are handed back as they are - also objects that happen to be awaitable
+        done_fut = asyncio.get_running_loop().create_future()
+        done_fut.set_result("payload")
+        failed_fut = asyncio.get_running_loop().create_future()
+        failed_fut.set_exception(ValueError("inner failure"))
+
+        async def never_run():
+            out.append("a coroutine object returned as a *result* was run by the wrapper")
+        coro_obj = never_run()
+        for label, deco in (("wrap_async", wrap_async), ("asynchronous", asynchronous), ("traced", traced)):
+            for what, obj in (("a completed Future", done_fut), ("a failed Future", failed_fut), ("a coroutine object", coro_obj),
+                              ("a list", [1]), ("None", None)):
+                def give(o=obj):
+                    return o
+                try:
+                    async with ctx.scope("r"):
+                        v = deco(give)()
+                        v = await v if label != "traced" else v
+                    if v is not obj:
+                        out.append(f"{label}: a function returning {what} - the caller received {v!r} instead of that object")
+                except Exception as e:  # noqa
+                    out.append(f"{label}: a function returning {what} - the call raised {e!r}")
+        failed_fut.exception()
+        coro_obj.close()
         # every keyword name is the caller's to choose: none may collide with a wrapper's own parameter
         KEYWORDS = ["instance", "function", "owner", "args", "kwargs", "executor", "loop", "context", "func", "method",
                     "obj", "wrapped", "result", "value", "key", "name", "label", "limit", "timeout", "other"]
